@@ -209,7 +209,8 @@ def build(reg):
            ("bad_file_message", f"implies({anyp} and not {good}, self.msgs == old(self.msgs) + 1)"),
            ("bad_file_unchanged", f"implies({anyp} and not {good}, {unchanged})"),
            ("good_file_silent", f"implies({good}, self.msgs == old(self.msgs))"),
-           ("debug_log_absent", f"implies({good} and 'debug_log' not in parsed, self.debug_log == old(self.debug_log))")]
+           ("debug_log_absent", f"implies({good} and 'debug_log' not in parsed, self.debug_log == old(self.debug_log))"),
+           ("debug_log_file_wins", f"implies({good} and 'debug_log' in parsed, self.debug_log == parsed['debug_log'])")]
     for n, cl in loaded_clauses(opts, src="parsed"):
         ens.append((n, f"implies({good}, {cl})"))
     reg.add(Contract(
@@ -292,6 +293,10 @@ def _relevant(obligation, kind, names):
         return kind == "absent" and m is not None and m.group(1) in names
     if "present[" in obligation:
         return kind == "present" and m is not None and m.group(1) in names
+    if "debug_log_file_wins" in obligation:
+        return kind == "present" and "debug_log" in names
+    if "debug_log_absent" in obligation:
+        return kind == "absent" and "debug_log" in names
     if "ensures.sync_type" in obligation:
         return kind == "present" and any("sync" in n or "Sync" in n for n in names)
     if "bad_file" in obligation or "requires.is_dict" in obligation or "no_raise" in obligation or "generation" in obligation:
@@ -316,16 +321,20 @@ def search(func, tier, seed, obligation=""):
     import json as _json
     for act in _cli("fortls")._actions:
         o = act.dest
-        if o not in OPTIONS or o in ("debug_log",) or not act.option_strings:
+        if o not in OPTIONS or not act.option_strings:
             continue
         flag = act.option_strings[-1]
         if type(act).__name__ == "_StoreTrueAction":
             trials.append(([flag], _json.dumps({o: False}), "present"))
         elif act.type is int:
-            trials.append(([flag, "7"], _json.dumps({o: 9}), "present"))
+            a, b = ("2000", 3000) if o == "recursion_limit" else (("2", 3) if o == "nthreads" else ("7", 9))
+            trials.append(([flag, a], _json.dumps({o: b}), "present"))
         elif o == "hover_language":
             trials.append(([flag, "f77"], _json.dumps({o: "f08"}), "present"))
+    import sys as _sys
+    _limit = _sys.getrecursionlimit()
     for argv, cfg, kind in trials:
+        _sys.setrecursionlimit(_limit)  # the server sets the interpreter's limit from its recursion_limit option
         ws = Workspace({".fortlsrc": cfg, "a.f90": "program p\nend program p\n"})
         try:
             srv, out = session(ws, [], argv=argv, keep_threads=True)
@@ -370,6 +379,7 @@ def search(func, tier, seed, obligation=""):
                             "wrong (file, server)": wrong}
         finally:
             ws.close()
+            _sys.setrecursionlimit(_limit)
     return None
 
 
